@@ -1,5 +1,6 @@
 import IsoMdl.Model.Session
 import IsoMdl.Spec.Iv
+import IsoMdl.Spec.Device
 namespace IsoMdl.Driver
 open IsoMdl IsoMdl.Session
 
@@ -118,6 +119,37 @@ def sessOp (w? : Option World) : List String → Option (Option World × String)
       (some w, match w.log.head? with
         | some (r, _, iv) => s!"iv={if r then "kr" else "kd"}:{hexOfBytes iv}"
         | none => "iv=none")
+  | _ => none
+
+def parseDevState (s : String) : Option DevState :=
+  match s.splitOn "/" with
+  | ["awaiting"] => some .awaiting
+  | ["signing", p, sg, st] => do
+      let p ← parseNatList p; let sg ← parseSigned sg; let st ← st.toNat?
+      pure (.signing p sg st)
+  | "ready" :: rest => (parseMsg ("/".intercalate rest)).map .ready
+  | _ => none
+
+def parseOptNat (s : String) : Option (Option Nat) :=
+  if s == "none" then some none else (s.toNat?).map some
+
+/-- C13 specification predicates on real observations -/
+def c13Op : List String → Option String
+  | ["spec.c13.offered", o, st] => do
+      let o ← parseOptNat o; let st ← parseDevState st; pure (toString (offeredOk o st))
+  | ["spec.c13.ready", b, st] => do
+      let st ← parseDevState st; pure (toString (readyOk (b == "true") st))
+  | ["spec.c13.notstuck", st] => do
+      let st ← parseDevState st; pure (toString (!st.stuck))
+  | ["spec.c13.retrieve", got, b, a] => do
+      let b ← parseDevState b; let a ← parseDevState a
+      let g ← if got == "none" then some none else (parseMsg got).map some
+      pure (toString (retrieveOk g b a))
+  | ["spec.c13.malformed", st] => do
+      let st ← parseDevState st; pure (toString (malformedOk st))
+  | ["spec.c13.submit", b, a, o, sig] => do
+      let b ← parseDevState b; let a ← parseDevState a; let o ← parseOptNat o; let sig ← sig.toNat?
+      pure (toString (submitOk b a o sig))
   | _ => none
 
 /-- leaf function (generated) and the ISO predicate on real observations -/
